@@ -203,3 +203,162 @@ def run_merge_check(report, families, seed, tier, extra_assumptions=None):
                     except Exception as e:  # noqa: BLE001
                         detail["xml_error"] = repr(e)
     return cov
+
+
+# ------------------------------------------------------------------------------------------
+# Binding B: histories (spec/MosLife.tla)
+# ------------------------------------------------------------------------------------------
+def life_property(kind, clause):
+    """which listed properties a failing clause of a life event speaks about"""
+    if clause == "continuity":
+        return ("C13",)
+    if clause == "msg_intact":
+        return ("C13",)
+    if kind == "reload":
+        return {"reload_identity": ("C14",), "reload_completed": ("C07", "C14")}.get(clause, ())
+    if kind == "remerge" and clause in ("story_seq", "story_perm", "item_seq", "item_perm", "unnamed",
+                                        "carried", "reported"):
+        return ("C13",)
+    p = CLAUSE_PROPERTY.get(clause)
+    return (p,) if p else ()
+
+
+def write_life_cfg(path, mode, objs, depth, bound=None):
+    b = dict(MaxSrc=2, MaxCarried=2)
+    b.update(bound or {})
+    lines = ["SPECIFICATION Spec", "CONSTANTS", "  MaxSrc = %d" % b["MaxSrc"], "  MaxCarried = %d" % b["MaxCarried"],
+             "  Objs = {%s}" % ", ".join(str(o) for o in objs), "  Depth = %d" % depth,
+             '  Mode = "%s"' % mode, "  Export = TRUE",
+             "INVARIANT Inv_Export", "INVARIANT Inv_CompletedIffEnded", "INVARIANT Inv_Envelope",
+             "INVARIANT Inv_TypeOK", "PROPERTY Act_Terminal", "CHECK_DEADLOCK FALSE"]
+    with open(path, "w") as f:
+        f.write("\n".join(lines) + "\n")
+
+
+def generate_life(name, mode, objs, depth, seed, num=None, cap=None):
+    wd = tlc.workdir("life-" + name)
+    cfg = os.path.join(wd, "Life.cfg")
+    write_life_cfg(cfg, mode, objs, depth)
+    if mode == "alphabet":
+        res = tlc.run("MosLife", cfg, "life-" + name, workers=16, timeout=3000)
+    else:
+        res = tlc.run("MosLife", cfg, "life-" + name, workers=8, timeout=3000,
+                      simulate="num=%d" % num, extra=["-depth", str(depth + 3), "-seed", str(seed % (2 ** 31))])
+    tlc.require_ok(res, "MosLife " + name)
+    seen = {}
+    for raw in res["lines"].get("BEH", []):
+        b = json.loads(raw)
+        key = json.dumps(b["steps"], sort_keys=True)
+        seen.setdefault(key, b)
+    behs = [seen[k] for k in sorted(seen)]
+    if cap and len(behs) > cap:
+        behs = random.Random(seed).sample(behs, cap)
+    return behs, res["stats"]
+
+
+def _run_beh_chunk(chunk):
+    from . import behave, execute
+    out = []
+    for bid, beh in chunk:
+        try:
+            evs = behave.run_behaviour(bid, beh, _G["seed"])
+            out.append((bid, evs, None))
+        except execute.Machinery as e:
+            out.append((bid, [], str(e)))
+    return out
+
+
+def run_life_check(report, plans, seed, tier):
+    """plans: list of dict(name, mode, objs, depth, num, cap)."""
+    prop = report.prop
+    cov = {"states": 0, "transitions": 0, "traces_validated_against_impl": 0, "samples": [],
+           "tlc": [], "behaviours": 0, "events": 0, "kinds": {}, "status_counts": {}}
+    for plan in plans:
+        name = "%s-%s" % (prop, plan["name"])
+        behs, st = generate_life(name, plan["mode"], plan["objs"], plan["depth"], seed,
+                                 num=plan.get("num"), cap=plan.get("cap"))
+        if not behs:
+            report.machinery_error("no behaviour generated for plan %s" % plan["name"])
+            continue
+        cov["states"] += st.get("distinct", 0) or st.get("generated", 0) or len(behs)
+        cov["transitions"] += st.get("generated", 0) or len(behs) * plan["depth"]
+        cov["tlc"].append({"plan": plan, "cmd": st["cmd"], "wall_s": st["wall_s"], "behaviours": len(behs),
+                           "theorems": ["Inv_CompletedIffEnded", "Inv_Envelope", "Inv_TypeOK", "Act_Terminal"]})
+        todo = [("%s:%d" % (plan["name"], i), b) for i, b in enumerate(behs)]
+        chunks = [todo[i:i + 25] for i in range(0, len(todo), 25)]
+        ctx = multiprocessing.get_context("fork")
+        with ctx.Pool(16, initializer=_init, initargs=({}, seed)) as pool:
+            results = [r for part in pool.map(_run_beh_chunk, chunks) for r in part]
+        events = []
+        behmap = dict(todo)
+        for n, (bid, evs, err) in enumerate(results):
+            if err:
+                report.machinery_error(err)
+                continue
+            for e in evs:
+                e["obj"] = n * 10 + e["obj"]      # object ids unique across behaviours
+                e["beh"] = bid
+            events.append(evs)
+        cov["behaviours"] += len(events)
+        flat = [e for evs in events for e in evs]
+        for e in flat:
+            cov["kinds"][e["k"]] = cov["kinds"].get(e["k"], 0) + 1
+            s = e["status"].split(":")[0]
+            cov["status_counts"][s] = cov["status_counts"].get(s, 0) + 1
+        bad, jst = judge_sequences(events, name)
+        cov["events"] += jst["judged"]
+        cov["traces_validated_against_impl"] += len(events)
+        cov["states"] += jst["states"]
+        if behs:
+            b0 = behs[0]
+            cov["samples"].append({"plan": plan["name"], "steps": [
+                {"k": s["k"], "obj": s["obj"], "cls": s["msg"]["cls"], "ref": s["ref"]} for s in b0["steps"]]})
+        byid = {e["id"]: e for e in flat}
+        for b in bad:
+            ev = byid[b["id"]]
+            for clause in b["clauses"]:
+                if prop not in life_property(b["k"], clause):
+                    continue
+                detail = {"kind": "behaviour", "behaviour": behmap[ev["beh"]], "beh_id": ev["beh"], "seed": seed,
+                          "failing_step": b["id"], "step_kind": b["k"],
+                          "observed": {k: ev.get(k) for k in ("status", "warns", "ser_eq", "intact", "cls", "completed_eq")}}
+                report.failure(clause, "%s:%s" % (b["k"], b["sig"]), detail)
+    return cov
+
+
+def judge_sequences(seqs, name, shards=16):
+    """like judge(), but keeps each sequence (behaviour) whole and in order inside one shard"""
+    wd = tlc.workdir("judge-" + name)
+    seqs = [s for s in seqs if s]
+    if not seqs:
+        return [], {"judged": 0, "states": 0}
+    shards = max(1, min(shards, len(seqs)))
+    parts = [[] for _ in range(shards)]
+    for i, s in enumerate(seqs):
+        parts[i % shards].extend(s)
+
+    def one(i):
+        path = os.path.join(wd, "ev%d.json" % i)
+        with open(path, "w") as f:
+            json.dump([{k: v for k, v in e.items() if k not in ("xml", "beh", "obs")} for e in parts[i]], f)
+        res = tlc.run("Trace_Merge", "Trace_Merge.cfg", "judge-%s-%d" % (name, i), workers=1,
+                      env={"TRACE_FILE": path}, timeout=3000, heap="3g")
+        os.remove(path)
+        return res
+
+    with ThreadPoolExecutor(max_workers=16) as ex:
+        results = list(ex.map(one, range(shards)))
+    bad, judged, states = [], 0, 0
+    for i, res in enumerate(results):
+        tlc.require_ok(res, "Trace_Merge shard %d of %s" % (i, name))
+        j = res["lines"].get("JUDGED", [])
+        if not j or int(j[-1]) != len(parts[i]):
+            raise tlc.TlcError("judge shard %d of %s consumed %s of %d events" % (i, name, j, len(parts[i])))
+        judged += len(parts[i])
+        states += res["stats"].get("distinct", 0)
+        seen = set()
+        for raw in res["lines"].get("BAD", []):
+            if raw not in seen:
+                seen.add(raw)
+                bad.append(json.loads(raw))
+    return bad, {"judged": judged, "states": states}
